@@ -159,3 +159,44 @@ Example a_text_of_a_tree :
   expr_text (WBin BMul (WBin BAdd (WSym "a") (WNum (-2))) (WCall "f" [WStr "x y"; WNot (WSym "b")])) = "( a + -2 ) * f ( ""x y"" , ! b ) "%string.
 Proof. vm_compute. reflexivity. Qed.
 Print Assumptions a_text_of_a_tree.
+
+(** * the grammar text itself: regenerated from wawk/parser.py on every run and compared with what the model implements *)
+From WalModel Require Import Generated.
+From WalModel.proofs Require Import WawkGrammarTies.
+
+Theorem the_expression_rules_of_the_grammar_are_the_models : wawk_expression_rules = model_rules.
+Proof. exact expression_rules_are_the_repositorys. Qed.
+Print Assumptions the_expression_rules_of_the_grammar_are_the_models.
+
+Theorem the_model_rules_are :
+  model_rules =
+  [("expr", "?", [["or_s"]])] +++
+  left_assoc_rows "or_s" "a_or_s" "and_s" "or_op" +++
+  left_assoc_rows "and_s" "a_and_s" "comp" "and_op" +++
+  nonassoc_rows "comp" "a_comp" "sum_s" "comp_op" +++
+  left_assoc_rows "sum_s" "a_sum_s" "mul" "a_s_op" +++
+  left_assoc_rows "mul" "a_mul" "neg" "m_d_op" +++
+  [("neg", "?", [["a_neg"]; ["atom"]]); ("a_neg", "", [["u_op"; "neg"]]); ("u_op", "!", [[q "!"]])] +++
+  [ops_row "m_d_op" 5; ops_row "a_s_op" 4; ops_row "comp_op" 3; ops_row "and_op" 2; ops_row "or_op" 1] +++
+  [("base_symbol", "!", [["("; "LETTER"; "|"; q "_"; ")"; "("; "LETTER"; "|"; "INT"; "|"; q "_"; "|"; q "$"; "|"; q "."; ")"; "*"]]);
+   ("fcall", "", [["base_symbol"; q "("; "["; "expr"; "("; q ","; "expr"; ")"; "*"; "]"; q ")"]]);
+   ("string", "", [["ESCAPED_STRING"]])]%string.
+Proof. reflexivity. Qed.
+Print Assumptions the_model_rules_are.
+
+Theorem the_rule_shapes_are : forall name a_name sub opname,
+  left_assoc_rows name a_name sub opname = [(name, "?", [[a_name]; [sub]]); (a_name, "", [[name; opname; sub]])]%string /\
+  nonassoc_rows name a_name sub opname = [(name, "?", [[a_name]; [sub]]); (a_name, "", [[sub; opname; sub]])]%string.
+Proof. intros. split; reflexivity. Qed.
+Print Assumptions the_rule_shapes_are.
+
+Theorem the_atoms_and_ignored_text_of_the_grammar :
+  wawk_atom_alternatives = [["symbol"]; ["fcall"]; ["array_get"]; [q "("; "expr"; q ")"]; ["string"]; ["list"]; ["SIGNED_INT"]; ["INT"]]%string /\
+  wawk_ignored = ["WS"; "COMMENT"]%string /\ wawk_comment_terminal = "/\/\/[^\n]*/"%string.
+Proof. exact (conj atom_alternatives_are_the_repositorys ignored_text_is_the_repositorys). Qed.
+Print Assumptions the_atoms_and_ignored_text_of_the_grammar.
+
+Theorem each_operator_is_in_the_set_of_its_level_only : forall o,
+  In [q (bop_text o)] (snd (ops_row "" (lvl_op o))) /\ forall l, l <> lvl_op o -> ~ In [q (bop_text o)] (snd (ops_row "" l)).
+Proof. exact operator_sets_cover_the_operators. Qed.
+Print Assumptions each_operator_is_in_the_set_of_its_level_only.
